@@ -89,7 +89,15 @@ _q = r'"((?:[^"\\]|\\.)*)"'
 
 
 def unq(s):
-    return s.replace('\\"', '"').replace('\\\\', '\\')
+    out, i = [], 0
+    while i < len(s):
+        if s[i] == '\\' and i + 1 < len(s):
+            n = s[i + 1]
+            out.append({'n': '\n', '"': '"', '\\': '\\'}.get(n, '\\' + n))
+            i += 2
+        else:
+            out.append(s[i]); i += 1
+    return ''.join(out)
 
 
 class FileJob:
